@@ -253,7 +253,7 @@ pub fn generate(seed: u64, n: usize, _thorough: bool, _corpus: Option<&str>) -> 
         if let Some(mut c) = glue(text, "fixed") { c.tags.push("glue-fixed".into()); out.push(c); }
     }
     // the whole default path from TEXT on the iteration fragment
-    out.extend(text_cases(&mut r, (n / 8).max(20)));
+    out.extend(text_cases(&mut r, (n / 8).max(20).min(1500)));
     crate::child::shutdown();
     out
 }
